@@ -26,7 +26,7 @@ def run_all(files, pids):
     res = {}
     for pid in pids:
         buf = io.StringIO()
-        code, rep = run_check(pid, files, "quick", 0, quiet=True, out=buf)
+        code, rep = run_check(pid, files, "quick", 0, quiet=True, out=buf, write=False)
         res[pid] = (code, sorted({v["key"] for v in rep.violations}) if code != 2 else buf.getvalue()[-300:])
     return res
 
